@@ -123,12 +123,20 @@ def cases(ctx):
     for k in range(ctx.share(1500 if quick else 4000)):
         lats = sorted(rng.uniform(0, 90) for _ in range(250))
         yield "nl", {"kind": "random", "lats": lats, "sorted_abs": True}
-    # argument types: integer latitudes are real latitudes too.  (Single-precision inputs are NOT judged: the closed form
-    # evaluated in float32 legitimately flips within ~1e-6 deg of a transition - that would demand more than the statement.)
+    # argument types: integer latitudes are real latitudes too.  (Single-precision inputs are not judged NEAR transitions:
+    # the closed form evaluated in float32 legitimately flips within ~1e-6 deg of one; away from them see "float32" below.)
     if ctx.mine(i):
         yield "nl", {"kind": "ints", "lats": list(range(0, 91)), "sorted_abs": True}
         yield "nl", {"kind": "ints", "lats": [-k for k in range(0, 91)], "sorted_abs": True}
     i += 1
+    # single-precision latitudes (as taken from float32 arrays), judged only when at least 1e-4 degree away from every
+    # transition (incl. 87): there the exact real value of the argument decides and no arithmetic subtlety is involved
+    import numpy as np
+    for k in range(ctx.share(200 if quick else 2000)):
+        raw = [rng.uniform(0, 90) for _ in range(150)] + [10 ** rng.uniform(-8, -0.5) for _ in range(100)]
+        lats = sorted(float(np.float32(x)) for x in raw)
+        lats = [x for x in lats if x <= 90.0 and not cpr.near_transition(x, 1e-4) and abs(x - 87.0) > 1e-4]
+        yield "nl", {"kind": "float32", "lats": lats, "sorted_abs": True, "as": "float32"}
     # dense inside/around the 87 window
     for k in range(ctx.share(64)):
         lats = sorted(rng.uniform(86.998, 87.002) for _ in range(200))
